@@ -225,6 +225,8 @@ func (c Conc) encDesc(e *cborx.Enc, d Desc) {
 			e.Uint(1 << 32)
 		case "u64max":
 			e.Uint(math.MaxUint64)
+		case "u63":
+			e.Uint(1 << 63)
 		case "n33":
 			e.Nint(1 << 31) // -2^31-1
 		case "n64min":
@@ -353,7 +355,7 @@ func descLabel(d Desc) string {
 }
 
 func (c Conc) encToken(entries []tokEntry, indef bool) []byte {
-	e := &cborx.Enc{}
+	e := &cborx.Enc{MinW: c.minW}
 	n := 0
 	for _, en := range entries {
 		if en.it.D != "none" {
